@@ -277,6 +277,19 @@ func cmdCheck(args []string) int {
 	}
 	ts := time.Now()
 	dischargeAll(todo, work, *par, q1, q2)
+	// second chance for obligations no solver decided: they are re-run a few at a
+	// time with a doubled budget, so that a loaded machine (many queries racing
+	// three solvers each) does not turn a slow proof into an alarm
+	var again []*Oblig
+	for _, o := range todo {
+		if o.Status == "unknown" && o.Kind != "canary" && !o.ShortBudget {
+			o.Secs = 0
+			again = append(again, o)
+		}
+	}
+	if len(again) > 0 && len(again) <= 12 {
+		dischargeAll(again, work, 3, q1, 2*q2)
+	}
 	solveWall := time.Since(ts).Seconds()
 
 	// classify
